@@ -273,6 +273,23 @@ def null_position_rule(program, res, backends, rule="C18-S5"):
                 res.fail_at(rule, pm, "polars-null-position",
                             f"`{unparse(c)[:70]}` leaves nulls_last at its default (False: missing values first); Pandas puts them {pandas_pos}: "
                             f"order_rows(['x'], limit=2) over x=[2,None,1,3] keeps different rows", c)
+        # the same for the sort that puts a window in order (Pandas: sort_values in _extend_step, missing values last)
+        pe = program.method("polars_model", "PolarsModel", "_extend_step", inherited=False)
+        res.analysed(pe)
+        wsorts = [c for c in ast.walk(pe.node) if isinstance(c, ast.Call) and isinstance(c.func, ast.Attribute) and c.func.attr == "sort"]
+        if not wsorts:
+            raise AnalysisError("Polars _extend_step: window sort not found")
+        for c in wsorts:
+            kws = {k.arg: k.value for k in c.keywords}
+            nl = kws.get("nulls_last")
+            want = pandas_pos == "last"
+            if isinstance(nl, ast.Constant) and nl.value is want:
+                res.ok(rule, f"Polars window sort uses nulls_last={want}")
+            else:
+                res.fail_at(rule, pe, "polars-window-null-position",
+                            f"`{unparse(c)[:70]}` leaves nulls_last at its default (missing order keys first); the Pandas window sort puts them {pandas_pos}: "
+                            f"v.shift() / v.first() / _row_number() over order_by=['o'] with a missing o give other values on Polars than on Pandas "
+                            f"(o=[2,None,1]: Pandas shift = nan,30,10 by o=1,2,None; Polars 20,30,None)", c)
     for dialect in [b for b in backends if b.endswith("Model")]:
         sm = program.method("sql_model", "SQLModel", "order_to_near_sql", inherited=False)
         res.analysed(sm)
